@@ -366,6 +366,7 @@ type world struct {
 	dbDown        bool
 	stalled       bool
 	newParked     int
+	holdQueue     bool
 	hctx          context.Context
 	hcancel       context.CancelFunc
 	pastSummaries string
@@ -796,6 +797,10 @@ func (w *world) runStep(i int, st simkit.Step) {
 				w.obsvC <- &gossipv1.SignedObservation{MessageId: fillerID}
 			}
 			w.stats.Fault("inbound-observation-queue-full")
+			w.holdQueue = true // stays full until the next step's handler call has been made
+			w.log.Add("queue filled")
+			w.log.Cut(fmt.Sprintf("%d %s", w.stepIdx, st))
+			return
 		}
 	case "dbdown":
 		// storage fault: the badger handle behind the node's store is closed, every store call fails
@@ -841,6 +846,7 @@ func (w *world) runStep(i int, st simkit.Step) {
 	default:
 		w.log.Add("unknown-op %s", st.Op)
 	}
+	w.holdQueue = false
 	w.afterStep(st, before, obsHash, obsAcceptable)
 }
 
@@ -1397,6 +1403,7 @@ const (
 
 func (w *world) doTicks(st simkit.Step) {
 	w.deliveryStep = false
+	w.holdQueue = false
 	n := int(st.B)
 	if n <= 0 {
 		n = 1
